@@ -3,6 +3,7 @@ package props
 import (
 	"encoding/json"
 	"fmt"
+	"regexp"
 	"sort"
 	"strconv"
 	"strings"
@@ -641,8 +642,20 @@ func c04Judge(pool *sb.Pool, rec *sb.Rec, tree *xNode, extra map[*xNode]bool) *f
 			return mk("redundant-parentheses", exS, got)
 		}
 	}
+	// tight spelling: "+"/"-" glued to a following number ("$a -1 * 3"); the lexer then sees a signed
+	// literal, and the expression must still group as the table says
+	if tightS := tightRe.ReplaceAllString(minS, " $1$2"); tightS != minS {
+		rec.Label("printing.tight-signed-literal", tightS)
+		if got, _ := c04Run(pool, tightS); got != full {
+			f := mk("tight (sign glued to the literal)", tightS, got)
+			f.Key = "feature:tight-signed-literal"
+			return f
+		}
+	}
 	return nil
 }
+
+var tightRe = regexp.MustCompile(` ([+-]) (\d)`)
 
 // c04Reduce replaces subtrees by leaves (type-preserving, value-preserving under the evaluator) while the failure persists.
 func c04Reduce(pool *sb.Pool, rec *sb.Rec, tree *xNode) *failure {
